@@ -140,29 +140,40 @@ fn examine(f: Line, a0: f64, b0: f64, evals: &mut u64) -> Vec<(f64, f64)> {
             guard += 1;
             let n = 8;
             let dt = (b - a) / n as f64;
-            let vals: Option<Vec<V3>> = (0..=n).map(|i| f(a + dt * i as f64)).collect();
-            *evals += n as u64 + 1;
-            let Some(vals) = vals else {
+            // 8 sub-intervals plus two more on either side (where the line's domain allows) for the stencil below
+            let vals: Vec<Option<V3>> = (-2..=n as i64 + 2).map(|i| f(a + dt * i as f64)).collect();
+            *evals += n as u64 + 5;
+            if vals[2..=n + 2].iter().any(|v| v.is_none()) {
                 ok = false;
                 break;
-            };
-            let steps: Vec<V3> = (0..n).map(|i| sub(vals[i + 1], vals[i])).collect();
-            // each increment against the linear trend of its neighbours (for a smooth map this is ~ dt^3, while a jump J inside
-            // sub-interval i gives J there and -J/2 in both neighbours)
-            let at = |i: i64| -> V3 {
-                if i < 0 {
-                    sub(scale(steps[0], 2.0), steps[1])
-                } else if i >= n as i64 {
-                    sub(scale(steps[n - 1], 2.0), steps[n - 2])
-                } else {
-                    steps[i as usize]
+            }
+            // increments; index k + 2 holds sub-interval k
+            let mut steps: Vec<Option<V3>> = (0..n + 4).map(|i| match (vals[i], vals[i + 1]) {
+                (Some(p), Some(q)) => Some(sub(q, p)),
+                _ => None,
+            }).collect();
+            // outside the domain: continue the increments linearly
+            for i in [1usize, 0] {
+                if steps[i].is_none() {
+                    steps[i] = Some(sub(scale(steps[i + 1].unwrap(), 2.0), steps[i + 2].unwrap()));
                 }
-            };
+            }
+            for i in [n + 2, n + 3] {
+                if steps[i].is_none() {
+                    steps[i] = Some(sub(scale(steps[i - 1].unwrap(), 2.0), steps[i - 2].unwrap()));
+                }
+            }
+            let st: Vec<V3> = steps.into_iter().map(|x| x.unwrap()).collect();
+            // each increment against the cubic trend of its four neighbours: (-1, 4, -6, 4, -1) / 6. For a smooth map the
+            // residual is ~ dt^5; a jump J inside sub-interval k leaves J there, -2J/3 in its neighbours and J/6 beyond
             let mut dev: Vec<(usize, f64)> = (0..n)
-                .map(|i| {
-                    let (l, r) = if i == 0 { (at(1), at(2)) } else if i == n - 1 { (at(n as i64 - 2), at(n as i64 - 3)) } else { (at(i as i64 - 1), at(i as i64 + 1)) };
-                    let expected = if i == 0 || i == n - 1 { sub(scale(l, 2.0), r) } else { scale(add(l, r), 0.5) };
-                    (i, norm(sub(steps[i], expected)))
+                .map(|k| {
+                    let c = k + 2;
+                    let mut r = [0.0; 3];
+                    for d in 0..3 {
+                        r[d] = (-st[c - 2][d] + 4.0 * st[c - 1][d] - 6.0 * st[c][d] + 4.0 * st[c + 1][d] - st[c + 2][d]) / 6.0;
+                    }
+                    (k, norm(r))
                 })
                 .collect();
             dev.sort_by(|x, y| y.1.partial_cmp(&x.1).unwrap());
@@ -190,8 +201,9 @@ fn examine(f: Line, a0: f64, b0: f64, evals: &mut u64) -> Vec<(f64, f64)> {
         let w = b - a;
         let (Some(fa), Some(fb), Some(fl), Some(fr)) = (f(a), f(b), f(a - w), f(b + w)) else { continue };
         *evals += 4;
-        let smooth = 0.5 * (norm(sub(fa, fl)) + norm(sub(fr, fb)));
-        let jump = norm(sub(fb, fa)) - smooth;
+        // (as vectors: a jump at right angles to the direction of travel adds to the increment only in quadrature)
+        let smooth = scale(add(sub(fa, fl), sub(fr, fb)), 0.5);
+        let jump = norm(sub(sub(fb, fa), smooth));
         if jump > MIN_JUMP {
             out.push((0.5 * (a + b), jump));
         }
@@ -531,4 +543,63 @@ pub fn counters() -> Vec<(String, u64)> {
         ("loci.discontinuities_located".to_string(), l.points.len() as u64),
         ("loci.hostile_points_moved_onto_a_located_discontinuity".to_string(), SUBSTITUTED.load(Ordering::Relaxed)),
     ]
+}
+
+#[cfg(test)]
+mod tests {
+    use super::*;
+
+    fn run(f: Line, t0: f64, t1: f64, n: usize) -> Vec<(f64, f64)> {
+        let mut stats = Loci::default();
+        let mut found = Vec::new();
+        scan_line(f, t0, t1, n, &mut stats, &mut found);
+        found
+    }
+
+    #[test]
+    fn locates_a_synthetic_jump_and_ignores_kinks_and_curvature() {
+        // smooth curve with curvature, a kink at 0.3 and a jump of 1e-12 at 0.7123456789
+        let at = 0.712_345_678_9;
+        let f = |t: f64| -> Option<V3> {
+            let kink = if t > 0.3 { 0.2 * (t - 0.3) } else { 0.0 };
+            let jump = if t > at { 1e-12 } else { 0.0 };
+            Some([t.sin() + kink + jump, (2.0 * t).cos(), 0.5 * t * t])
+        };
+        let found = run(&f, 0.0, 1.0, 10_000);
+        assert!(!found.is_empty(), "the jump was not located");
+        for (t, j) in &found {
+            assert!((t - at).abs() < 1e-10, "located at {t}");
+            assert!((j - 1e-12).abs() < 3e-13, "jump {j}");
+        }
+        // the same curve without the jump: nothing
+        let g = |t: f64| -> Option<V3> {
+            let kink = if t > 0.3 { 0.2 * (t - 0.3) } else { 0.0 };
+            Some([t.sin() + kink, (2.0 * t).cos(), 0.5 * t * t])
+        };
+        assert!(run(&g, 0.0, 1.0, 10_000).is_empty());
+    }
+
+    #[test]
+    fn locates_both_edges_of_a_snapped_band_from_a_logarithmic_ray() {
+        // values within 1e-9 of zero are snapped onto zero: invisible from outside the band with uniform steps, entered by a
+        // logarithmic ray out of the special value
+        let f = |t: f64| -> Option<V3> {
+            let x = t.exp();
+            let y = if x.abs() < 1e-9 { 0.0 } else { x };
+            Some([y, 1.0, 0.0])
+        };
+        let found = run(&f, (1e-14f64).ln(), (1.0f64).ln(), 20_000);
+        assert!(found.iter().any(|(t, j)| (t.exp() - 1e-9).abs() < 1e-12 && *j > 5e-10), "{found:?}");
+    }
+
+    #[test]
+    fn a_jump_beside_a_kink_is_still_located() {
+        let f = |t: f64| -> Option<V3> {
+            let kink = if t > 0.5 { 0.3 * (t - 0.5) } else { 0.0 };
+            let jump = if t > 0.5 + 1.5e-8 { 4e-10 } else { 0.0 };
+            Some([t + kink + jump, t * t, 0.0])
+        };
+        let found = run(&f, 0.0, 1.0, 12_000);
+        assert!(found.iter().any(|(t, j)| (t - 0.5 - 1.5e-8).abs() < 1e-10 && (j - 4e-10).abs() < 1e-10), "{found:?}");
+    }
 }
